@@ -97,6 +97,27 @@ Definition pstep (s : pst) (op : list Z) : pst * list Z * change :=
   else if c =? 12 then match get p h with PGrp _ _ _ st _ _ => same (out3 1 (bz st) (-1)) | _ => same fail end
   else if c =? 13 then push (PVec (map (fun i => 7 * nz i + 1) (seq 0 (zn (Z.max (g 2%nat) 0))))) CNew
   else if c =? 14 then match get p h with PVec l => upd (PVec (l ++ [g 3%nat])) (out3 1 (nz (length l) + 1) (-1)) | _ => same fail end
+  else if c =? 19 then match get p h with
+                       | PVec l => let i := zn (Z.max (g 3%nat) 0) in
+                                   if (i <=? length l)%nat then upd (PVec (firstn i l ++ g 4%nat :: skipn i l)) (out3 1 (nz (length l) + 1) (-1))
+                                   else same (out3 1 (-1) (-1))
+                       | _ => same fail
+                       end
+  else if c =? 20 then match get p h with
+                       | PVec l => match rev l with
+                                   | [] => same (out3 1 (-1) (-1))
+                                   | x :: r => upd (PVec (rev r)) (out3 1 x (-1))
+                                   end
+                       | _ => same fail
+                       end
+  else if c =? 21 then match get p h with
+                       | PVec l => let i := zn (Z.max (g 3%nat) 0) in
+                                   if (i <? length l)%nat then upd (PVec (firstn i l ++ skipn (S i) l)) (out3 1 (nth i l 0) (-1))
+                                   else same (out3 1 (-1) (-1))
+                       | _ => same fail
+                       end
+  else if c =? 22 then match get p h with PVec _ => same (out3 1 1 (-1)) | _ => same fail end
+  else if c =? 23 then match get p h with PVec l => push (PVec l) CNew | _ => same fail end
   else if (c =? 15) || (c =? 16) then match get p h with PVec l => same (out3 1 (sumz l) (-1)) | _ => same fail end
   else if c =? 17 then match get p h with
                        | PDead => same fail
